@@ -247,6 +247,14 @@ func Destroy() {
 	for _, a := range global.appenders {
 		a.Stop()
 	}
+	// Unbind tags and logger handles: the loggers they point to are
+	// stopped, so logging falls back to the default logger from now on.
+	for _, tag := range tagRegistry {
+		tag.logger = nil
+	}
+	for _, l := range loggerMap {
+		l.logger = nil
+	}
 	global.loggers = nil
 	global.appenders = nil
 	global.init = false
